@@ -159,26 +159,78 @@ func c05r1(c *Ctx) {
 			for _, p := range wb.Preds {
 				cut[edge{p, wb}] = true
 			}
-			// what is stored under the key written: the results of the storage reads of that key
-			stored := map[string]bool{}
+			// a branch decided by what is stored under the key (the result of a storage read of it, directly or through a
+			// helper that is handed the key and reads the storage) is the unchanged-value test: nothing to write
+			var dependsOnStored func(v ssa.Value, d int) bool
+			dependsOnStored = func(v ssa.Value, d int) bool {
+				if d > 10 {
+					return false
+				}
+				switch x := v.(type) {
+				case *ssa.Call:
+					if InvokeName(x) == "AccountDataHandler.RetrieveValue" {
+						return s.Env.Term(x.Call.Args[0]) == key
+					}
+					if sc := x.Call.StaticCallee(); sc != nil && len(sc.Blocks) > 0 && reachesInvoke(c.P, sc, "AccountDataHandler.RetrieveValue", 0) {
+						for _, a := range x.Call.Args {
+							if s.Env.Term(a) == key {
+								return true
+							}
+						}
+					}
+					for _, a := range x.Call.Args {
+						if dependsOnStored(a, d+1) {
+							return true
+						}
+					}
+				case *ssa.Extract:
+					return dependsOnStored(x.Tuple, d+1)
+				case *ssa.Field:
+					return dependsOnStored(x.X, d+1)
+				case *ssa.FieldAddr:
+					return dependsOnStored(x.X, d+1)
+				case *ssa.UnOp:
+					if x.Op == token.MUL {
+						if f := forwarded(x); f != nil {
+							return dependsOnStored(f, d+1)
+						}
+						// a local struct filled from a helper's result
+						if fa, ok := x.X.(*ssa.FieldAddr); ok {
+							if al, ok := fa.X.(*ssa.Alloc); ok && al.Referrers() != nil {
+								for _, ref := range *al.Referrers() {
+									if st, ok := ref.(*ssa.Store); ok && st.Addr == ssa.Value(al) && dependsOnStored(st.Val, d+1) {
+										return true
+									}
+								}
+							}
+						}
+					}
+					return dependsOnStored(x.X, d+1)
+				case *ssa.BinOp:
+					return dependsOnStored(x.X, d+1) || dependsOnStored(x.Y, d+1)
+				case *ssa.Phi:
+					for _, ed := range x.Edges {
+						if dependsOnStored(ed, d+1) {
+							return true
+						}
+					}
+				case *ssa.Convert:
+					return dependsOnStored(x.X, d+1)
+				}
+				return false
+			}
 			for _, bb := range s.In.Parent().Blocks {
-				for _, in2 := range bb.Instrs {
-					if rc, ok := in2.(*ssa.Call); ok && InvokeName(rc) == "AccountDataHandler.RetrieveValue" && s.Env.Term(rc.Call.Args[0]) == key {
-						stored[s.Env.Term(rc)+"#0"] = true
+				if len(bb.Instrs) == 0 {
+					continue
+				}
+				if iff, ok := bb.Instrs[len(bb.Instrs)-1].(*ssa.If); ok && dependsOnStored(iff.Cond, 0) {
+					for _, sc := range bb.Succs {
+						cut[edge{bb, sc}] = true
 					}
 				}
 			}
 			for ed, fs := range s.Env.EdgeFacts() {
 				for _, f := range fs {
-					isUnchanged := false
-					for st := range stored {
-						if f.Atom == eqAtom(val, st) || f.Atom == eqAtom(st, val) {
-							isUnchanged = true
-						}
-					}
-					if !f.Lin && f.Pos && isUnchanged {
-						cut[ed] = true // unchanged: nothing to write
-					}
 					if f.Lin && f.LE.isConst() && f.LE.k < 0 {
 						cut[ed] = true
 					}
@@ -194,11 +246,38 @@ func c05r1(c *Ctx) {
 				}
 			}
 			if skipped == "" {
-				c.OK(rule, fnn, tag+" [every pair]", pos, "a turn of the loop reaches the next one only through the write or through `stored value == listed value`")
+				c.OK(rule, fnn, tag+" [every pair]", pos, "a turn of the loop reaches the next one only through the write or through a branch decided by what is stored under the key")
 			} else {
 				c.FailX(Oblig{Rule: rule, Func: fnn, Construct: tag + " [every pair]", Pos: pos, Kind: "violation",
-					Detail:   "a turn of the loop can go on to the next pair without the write and without the stored value being equal to the listed one (" + skipped + "): a listed pair is dropped while the call reports success",
+					Detail:   "a turn of the loop can go on to the next pair without the write and without a test of what is stored under the key (" + skipped + "): a listed pair is dropped while the call reports success",
 					Expected: "every listed pair is stored (or already is what is stored)"})
+			}
+		}
+		// … or the pairs counted one by one: key = Arguments[2*j], j = 0,1,2,… (the write may sit in a per-pair helper)
+		if !stride && km != nil && strings.HasPrefix(km[1], "2*") {
+			atom := strings.TrimPrefix(km[1], "2*")
+			for ye := s.Env; ye != nil && !stride; ye = ye.Parent {
+				for _, bb := range ye.Fn.Blocks {
+					for _, in2 := range bb.Instrs {
+						ph, ok := in2.(*ssa.Phi)
+						if !ok || len(ph.Edges) != 2 || ye.Term(ph) != atom {
+							continue
+						}
+						zero, step := false, false
+						for _, ed := range ph.Edges {
+							if k, ok := constInt(ed); ok && k == 0 {
+								zero = true
+							} else if bo, ok := ed.(*ssa.BinOp); ok && bo.Op == token.ADD && bo.X == ssa.Value(ph) {
+								if k, ok := constInt(bo.Y); ok && k == 1 {
+									step = true
+								}
+							}
+						}
+						if zero && step {
+							stride = true
+						}
+					}
+				}
 			}
 		}
 		if pairOK && stride {
@@ -243,7 +322,25 @@ func c05r2(c *Ctx) {
 					c.Triv(rule, FuncName(g), construct, c.P.InstrPos(r), "refuses")
 					continue
 				}
-				if fs, ok := e.CutAt(r, func(f Fact) bool { return f.Lin && f.LE.String() == shortFact }, nil); ok {
+				// … or under a mismatch of one of the first n bytes, compared one by one (`key[i] != prefix[i]` with i < n)
+				mismatch := func(f Fact) bool {
+					if f.Lin || f.Pos || !strings.HasPrefix(f.Atom, "zero(") {
+						return false
+					}
+					body := strings.TrimSuffix(strings.TrimPrefix(f.Atom, "zero("), ")")
+					q := fmt.Sprintf("%q", prefix)
+					for _, pat := range [][2]string{{q + "[", "*" + key + "["}, {"*" + key + "[", q + "["}} {
+						if !strings.HasPrefix(body, pat[0]) {
+							continue
+						}
+						parts := strings.SplitN(strings.TrimPrefix(body, pat[0]), "] - "+pat[1], 2)
+						if len(parts) == 2 && strings.HasSuffix(parts[1], "]") && parts[0] == strings.TrimSuffix(parts[1], "]") {
+							return Proves(e.LinFactsAt(r, nil), leConst(n-1).minus(leAtom(parts[0])))
+						}
+					}
+					return false
+				}
+				if fs, ok := e.CutAt(r, func(f Fact) bool { return f.Lin && f.LE.String() == shortFact || mismatch(f) }, nil); ok {
 					c.OK(rule, FuncName(g), construct, c.P.InstrPos(r), "only under "+fs[0].String())
 				} else {
 					c.FailX(Oblig{Rule: rule, Func: FuncName(g), Construct: construct, Pos: c.P.InstrPos(r), Kind: "violation",
@@ -260,6 +357,14 @@ func c05r2(c *Ctx) {
 			if call, ok := inner.(*ssa.Call); ok && depth < 3 {
 				if sc := call.Call.StaticCallee(); sc != nil && len(sc.Blocks) > 0 && sc.Pkg != nil && strings.HasPrefix(sc.Pkg.Pkg.Path(), modPath) && sc != g {
 					judge(e.Sub(call, sc), ipol, depth+1)
+					continue
+				}
+			}
+			// bytes.HasPrefix(key, prefix) is `len(key) >= n && key[:n] == prefix`: its negation is the verdict as a whole
+			if call, ok := inner.(*ssa.Call); ok && CalleeName(call) == "bytes.HasPrefix" && len(call.Call.Args) == 2 && !ipol == true {
+				pc, isC := constBytesContent(call.Call.Args[1], false)
+				if e.Term(call.Call.Args[0]) == key && isC && pc == prefix {
+					c.OK(rule, FuncName(g), construct, c.P.InstrPos(r), "accepts exactly when the key does not have the prefix "+prefix+" (shorter, or different first bytes)")
 					continue
 				}
 			}
